@@ -233,6 +233,7 @@ def rule_pruning_evaluated(ctx, rid, rr):
                 raise
     # a cycle that runs through dependency-only literals must survive the pruning (so that the engine's acyclicity assertion reports
     # it): contracting the literals of a cycle one after the other makes it disappear, and the run silently succeeds
+    bad_other, bad = bad, []
     for label, lits, edges in (("two literals depending on each other, upstream of the output", ("L1", "L2"), [("L1", "L2"), ("L2", "L1"), ("L2", "b")]),
                                ("a cycle of three literals upstream of the output", ("L1", "L2", "L3"), [("L1", "L2"), ("L2", "L3"), ("L3", "L1"), ("L3", "b")]),
                                ("a call and a literal depending on each other", ("L1",), [("a", "L1"), ("L1", "a"), ("a", "b")])):
@@ -255,6 +256,12 @@ def rule_pruning_evaluated(ctx, rid, rr):
                 bad.append(f"{label}: the pruning does not terminate")
             else:
                 raise
+    if rid.startswith("C07"):
+        # (only C07 speaks about cycles being reported; the other properties use this rule for what pruning keeps and orders)
+        ctx.ob(rid, f"{prune.short}/cycles-through-literals-survive", not bad, loc(prune),
+               "evaluated on three cyclic plans whose cycle runs through dependency-only literals: the pruned plan is still cyclic, so the engine's "
+               "acyclicity assertion reports it" if not bad else "; ".join(bad[:2]))
+    bad = bad_other
     ok = not bad
     ctx.ob(rid, f"{prune.short}/evaluated", ok, loc(prune),
            f"evaluated on {n_cases} abstract plans: exactly the ancestors of the required nodes and the output survive (trivial literals contracted), "
